@@ -145,8 +145,8 @@ class Gen:
             r = rng.choice([[0, 2, 1], [0, 3, 1], [1, 3, 1], [2, 0, -1], [0, 4, 2], [3, -1, -2], [0, 0, 1], [2, 1, 1],
                             [0, 1, 1], [1, 6, 3]])
             body = self.tree(depth - 1, chans, idxs + [name])
-            if not uses_idx(body, name):
-                force_idx(body, name, _fr(F(rng.choice([-1, 1, 2]), 2)))
+            if not uses_idx(body, name) and not force_idx(body, name, _fr(F(rng.choice([-1, 1, 2]), 2))):
+                return body
             return {'k': 'for', 'id': self.ident(), 'meas': self.meas(3), 'idx': name, 'range': r, 'body': body}
         if k == 'map':
             pool = [c for c in 'ABCXYZ']
@@ -222,17 +222,22 @@ def uses_idx(node, name):
 
 
 def force_idx(node, name, k):
-    """make the first atom's first channel depend on the loop index (ForLoopPT rejects an unused index)"""
-    while node['k'] not in ('const', 'table'):
-        node = I.children(node)[0]
+    """make one atom value that does not depend on another index depend on the loop index (ForLoopPT rejects an
+    unused index); False when every value slot is already taken"""
     if node['k'] == 'const':
-        c = sorted(node['vals'])[0]
-        v = node['vals'][c]
-        node['vals'][c] = [v[0] if isinstance(v, list) else v, name, k]
-    else:
-        c = sorted(node['entries'])[0]
-        for e in node['entries'][c]:
-            e[1] = [e[1][0] if isinstance(e[1], list) else e[1], name, k]
+        for c in sorted(node['vals']):
+            if not isinstance(node['vals'][c], list):
+                node['vals'][c] = [node['vals'][c], name, k]
+                return True
+        return False
+    if node['k'] == 'table':
+        for c in sorted(node['entries']):
+            if not any(isinstance(e[1], list) for e in node['entries'][c]):
+                for e in node['entries'][c]:
+                    e[1] = [e[1], name, k]
+                return True
+        return False
+    return any(force_idx(ch, name, k) for ch in I.children(node))
 
 
 def canon(node):
@@ -423,8 +428,8 @@ def gen_ctor_cases(rng, n):
             c['named'] = rng.random() < 0.3          # the first reversal carries an identifier (then no unwrapping)
         elif op == 'iter':
             body = g.tree(rng.randint(0, 2), chans, idxs=['i'])
-            if not uses_idx(body, 'i'):
-                force_idx(body, 'i', '1/2')
+            if not uses_idx(body, 'i') and not force_idx(body, 'i', '1/2'):
+                continue
             c['args'] = [body]
             c['range'] = rng.choice([[0, 2, 1], [0, 3, 1], [2, 0, -1], [0, 0, 1], [1, 5, 2]])
         elif op == 'pad':
@@ -564,9 +569,9 @@ def describe(pt):
 def gen_cases(rng, tier, ctx):
     cases = fixed_cases()
     if tier == 'quick':
-        cases += gen_opt_cases(rng, 110, 3, 3)
-        cases += gen_opt_cases(rng, 12, 2, 0, exhaustive=True)
-        cases += gen_ctor_cases(rng, 120)
+        cases += gen_opt_cases(rng, 200, 3, 3)
+        cases += gen_opt_cases(rng, 25, 2, 0, exhaustive=True)
+        cases += gen_ctor_cases(rng, 250)
     else:
         cases += gen_opt_cases(rng, 900, 4, 4)
         cases += gen_opt_cases(rng, 150, 3, 0, exhaustive=True)
@@ -795,9 +800,23 @@ def par_gets_transformation(tree, G):
     return go(tree, G is not None)
 
 
+def linear_after_parallel(G):
+    """chain in which a LinearTransformation consumes a channel that an earlier ParallelChannelTransformation sets"""
+    ts = G['ts'] if G and G['k'] == 'chain' else []
+    seen = set()
+    for t in ts:
+        if t['k'] == 'parallel':
+            seen |= set(t['m'])
+        if t['k'] == 'linear' and seen & set(t['ins']) and len(t['ins']) > 1:
+            return True
+    return False
+
+
 def classify(case, obs):
     if 'crash' in obs or 'hang' in obs:
         return None
+    if case['kind'] == 'opt' and obs['opt'].get('raise') == 'KeyError' and linear_after_parallel(case['G']):
+        return 'linear_after_parallel_partial_inputs'
     if case['kind'] == 'opt':
         eff = effective_paths(case['tree'], case['S'])
         if under_reversal(case['tree'], eff):
